@@ -100,7 +100,10 @@ TExample ==
        IN Ev.line = PadTo(word, 72) \o <<32>> \o Ev.name
     /\ UNCHANGED <<s, v>>
 
-TraceNext == TBegin \/ TRead \/ TEnd \/ TFile \/ TFileData \/ TFileWide \/ TFileErr \/ TExample
+\* one output line per file argument, none without arguments
+TExampleCount == IsEvent("example_count") /\ s.pc = "Idle" /\ Ev.lines = Ev.files /\ UNCHANGED <<s, v>>
+
+TraceNext == TExampleCount \/ TBegin \/ TRead \/ TEnd \/ TFile \/ TFileData \/ TFileWide \/ TFileErr \/ TExample
 TraceSpec == l = 1 /\ s = Idle /\ v = VNormal /\ [][TraceNext]_vars
 
 TraceAccepted ==
